@@ -1058,7 +1058,12 @@ func (z *Decimal) SetFloat(x *big.Float) *Decimal {
 	exp2 -= int64(fprec)
 	if exp2 != 0 {
 		// multiply / divide by 2**exp with increased precision
-		z.prec++
+		// (unless the precision is already MaxPrec: z.prec++ would wrap to 0)
+		extra := uint32(0)
+		if z.prec < MaxPrec {
+			extra = 1
+		}
+		z.prec += extra
 		t := new(Decimal).SetPrec(uint(z.prec))
 		if exp2 < 0 {
 			if exp2 < MinExp {
@@ -1071,7 +1076,7 @@ func (z *Decimal) SetFloat(x *big.Float) *Decimal {
 		} else {
 			z = z.Mul(z, t.pow2(uint64(exp2)))
 		}
-		z.prec--
+		z.prec -= extra
 	}
 	z.round(0)
 	return z
@@ -1112,14 +1117,19 @@ func (z *Decimal) SetFloat64(x float64) *Decimal {
 	z.exp = int32(len(z.mant))*_DW - int32(dnorm(z.mant))
 	if exp2 != 0 {
 		// multiply / divide by 2**exp with increased precision
-		z.prec++
+		// (unless the precision is already MaxPrec: z.prec++ would wrap to 0)
+		extra := uint32(0)
+		if z.prec < MaxPrec {
+			extra = 1
+		}
+		z.prec += extra
 		t := new(Decimal).SetPrec(uint(z.prec))
 		if exp2 < 0 {
 			z = z.Quo(z, t.pow2(uint64(-exp2)))
 		} else {
 			z = z.Mul(z, t.pow2(uint64(exp2)))
 		}
-		z.prec--
+		z.prec -= extra
 	}
 	z.round(0)
 	return z
